@@ -152,7 +152,7 @@ for fn_, rc_ in (('ctor', ['normal exit', 'exceptional exit']), ('ReadNextBit', 
 # ---- U-LZ (C04)
 BSRC = ['BitStreamReader_ReadNextBit', 'BitStreamReader_ReadNext8Bits', 'BitStreamReader_EndOfStream']
 HTC = ['AdaptiveHuffmanTree_GetRootNodeIndex', 'AdaptiveHuffmanTree_IsLeaf', 'AdaptiveHuffmanTree_GetChildNode', 'AdaptiveHuffmanTree_GetNodeData', 'AdaptiveHuffmanTree_UpdateCodeCount', 'AdaptiveHuffmanTree_make']
-LZ_TRUST = ['UpdateCodeCount preserves the structural tree invariant for the 314-symbol tree (assumed contract in contracts/lz.contracts; proved by unit huff only for T <= 6)',
+LZ_TRUST = ['ghost g_tree_wf is by definition the quantified structural tree invariant (unfolded only in GetNextCode)', 'UpdateCodeCount preserves the structural tree invariant for the 314-symbol tree (assumed contract in contracts/lz.contracts; proved by unit huff only for T <= 6)',
             'memcpy/memset: assumed contracts with ghost-address postcondition (contracts/lz.contracts)']
 def lz(fn, reach=NOEXC, replace=(), **kw):
     G('lz.' + fn, ['C04'], 'lz', 'HuffLZ_' + fn, replace=BSRC + HTC + ['op2_memcpy', 'op2_memset'] + list(replace), reach=reach, trusted=LZ_TRUST, **kw)
@@ -162,10 +162,10 @@ lz('GetRepeatOffset', replace=['HuffLZ_GetOffsetModifiers'], flags=['--unwind', 
    what='result < 4096, bit position monotone, reader invariant kept')
 G('lz.lemma_repeat_offset_ref', ['C04'], 'lz', None, harness='h_lemma_repeat_offset_ref', replace=BSRC + ['HuffLZ_GetOffsetModifiers'], reach=['maximal distance reachable'],
   flags=['--unwind', '9', '--unwinding-assertions'], loop_contracts=False, timeout=900, what='GetRepeatOffset == reference DecodePosition (LZHUF) over the reference bit sequence, any buffer, any bit position')
-lz('GetNextCode', solver='cvc5', timeout=900, what='tree walk terminates, stays in the arrays, returns a symbol < 314 (needs the quantified structural tree invariant)')
+lz('GetNextCode', solver='cvc5', timeout=900, defines=['OP2_TREE_FORALL'], what='tree walk terminates, stays in the arrays, returns a symbol < 314 (needs the quantified structural tree invariant)')
 lz('DecompressCode', reach=['normal exit', 'exceptional exit'], replace=['HuffLZ_GetNextCode', 'HuffLZ_GetRepeatOffset', 'HuffLZ_WriteCharToBuffer'], timeout=900,
    what='one code appends 1..60 bytes, never moves the read index; refused update propagates without writing')
-lz('FillDecompressBuffer', reach=['normal exit', 'exceptional exit'], replace=['HuffLZ_DecompressCode'], timeout=900, solver='cvc5',
+lz('FillDecompressBuffer', reach=['normal exit', 'exceptional exit'], replace=['HuffLZ_DecompressCode'], timeout=900,
    what='queue invariant: unread data never overwritten (DecompressCode precondition unread <= 4035 at every call), terminates')
 lz('CopyAvailableData', timeout=900, what='delivers min(size, unread) oldest bytes in order, advances the read index by the count')
 lz('GetInternalBuffer', reach=['normal exit', 'exceptional exit'], replace=['HuffLZ_FillDecompressBuffer'], timeout=900)
@@ -242,3 +242,17 @@ NOT_DECIDED.update({
  'C18': ['VOL/CLM records, parsers with partially assigned locals, writer byte-exactness, input order and path spelling'],
  'C19': ['every std::filesystem-based helper: PathsAreEqual laws, Append/GetFilename/GetDirectory/ChangeFileExtension/ExtensionMatches'],
 })
+
+# ---- U-WRT (C14, C20, C01, C03: writer helpers over the abstract stream contracts)
+WR_TRUST = 'Writer contract (contracts/wr.h): Write appends exactly the bytes handed over or throws appending nothing; proved for MemoryWriter, assumed for FileWriter/std::ofstream and DynamicMemoryWriter/std::vector'
+G('wrt.Write', ['C14'], 'wrt', 'Writer_Write', replace=['Wr_WriteImplementation'], trusted=[WR_TRUST])
+G('wrt.WriteReader', ['C14', 'C01', 'C03'], 'wrt', 'Writer_WriteReader', replace=['Writer_Write', 'Rd_ReadPartial'], trusted=[WR_TRUST, KR_TRUST], timeout=900,
+  what='copy loop: exactly the remaining bytes, in order, any source length, ANY chunk size 1..2^20 (symbolic)')
+for tag_ in ('u32', 'u16', 'u8', 'i16', 'i8'):
+    G('wrt.WriteSized_' + tag_, ['C14', 'C20'], 'wrt', 'Writer_WriteSized_%s_vec_u8' % tag_, replace=['Writer_Write'], trusted=[WR_TRUST], reach=['normal exit', 'exceptional exit'],
+      what='Write<%s>(vector<uint8_t>): refused iff the size exceeds the prefix type, else little-endian prefix then data' % tag_)
+
+# ---- U-DYNW (C14: growing writer over the assumed std::vector model)
+VEC_TRUST = 'std::vector<uint8_t>::resize/reserve: assumed contracts of contracts/vecmodel.h (prefix preserved, value/zero fill, fails beyond max_size, may fail on allocation)'
+for fn_, rc_ in (('WriteImplementation', EXC2), ('Length', NOEXC), ('Position', NOEXC), ('SeekForward', EXC2), ('SeekBackward', EXC2), ('Seek', EXC2), ('GetReader', NOEXC)):
+    G('dynw.' + fn_, ['C14'], 'dynw', 'DynamicMemoryWriter_' + fn_, replace=['vec_u8_resize', 'vec_u8_resize_fill', 'vec_u8_reserve', 'MemoryReader_ctor'], force_replace=(['MemoryReader_ctor'] if fn_ == 'GetReader' else []), reach=rc_, trusted=[VEC_TRUST], timeout=600)
